@@ -755,7 +755,9 @@ func psSweepCases(h *hctx) []timedCase {
 			psCase(h, id, p)
 		}}
 	}
-	two := func(at time.Duration) []psSenderPlan { return []psSenderPlan{{startAt: at, gaps: []time.Duration{0, 0}}} }
+	two := func(at time.Duration) []psSenderPlan {
+		return []psSenderPlan{{startAt: at, gaps: []time.Duration{0, 0}}}
+	}
 	return []timedCase{
 		// three subscribers (one slow), one of them unsubscribes shortly AFTER the Send started: with a delay injected at a
 		// point of Send the unsubscribe lands exactly there
@@ -875,4 +877,3 @@ func init() {
 	register("C06S", func(h *hctx) { timedSweep(h, "c06", psSweepCases(h)) })
 	register("C07SAN", psSanity)
 }
-
